@@ -245,7 +245,9 @@ def make_call_target(k):
 
 
 def call_pool():
-  return [make_call_target(1), make_call_target(5)]
+  # three functions sharing ONE code object: two ordinary closures and one that is marked as
+  # an artifact (permanently run as-is, and remembered so in the allow-list cache)
+  return [make_call_target(1), make_call_target(5), api.autograph_artifact(make_call_target(9))]
 
 
 def _one_call(f, oi, st, x):
@@ -290,21 +292,23 @@ def _call_history(reqs):
 
 def _decode_call(bits):
   st = int(bits[2]) + 2 * int(bits[3])
-  if st > 2:
+  f = int(bits[0]) + 2 * int(bits[4])
+  if st > 2 or f > 2:
     return None
-  return (int(bits[0]), int(bits[1]), st)
+  return (f, int(bits[1]), st)
 
 
 def make_call_history3(f0, o0, s0):
-  def h(a0: bool, a1: bool, a2: bool, a3: bool, b0: bool, b1: bool, b2: bool, b3: bool) -> bool:
+  def h(a0: bool, a1: bool, a2: bool, a3: bool, a4: bool,
+        b0: bool, b1: bool, b2: bool, b3: bool, b4: bool) -> bool:
     """
     post: _
     """
-    v = deep_realize((a0, a1, a2, a3, b0, b1, b2, b3))
+    v = deep_realize((a0, a1, a2, a3, a4, b0, b1, b2, b3, b4))
     with NoTracing():
       reqs = [(f0, o0, s0)]
-      for k in (0, 4):
-        r = _decode_call(v[k:k + 4])
+      for k in (0, 5):
+        r = _decode_call(v[k:k + 5])
         if r is None:
           return True
         reqs.append(r)
@@ -314,7 +318,7 @@ def make_call_history3(f0, o0, s0):
 
 
 CALL_HISTORY3 = []
-for _f in range(2):
+for _f in range(3):
   for _o in range(2):
     for _s in range(3):
       _h = make_call_history3(_f, _o, _s)
@@ -333,7 +337,7 @@ def reach_twin(a0: bool, a1: bool, a2: bool, a3: bool, a4: bool) -> bool:
 
 def explain(func, args, kwargs):
   if func.startswith('call_history'):
-    return ('converted_call history: first request (function, options, status) = %s, then 4 bits per request '
-            '(f=b0, o=b1, status=b2+2b3 in [ENABLED, DISABLED, UNSPECIFIED]): %r; options=[recursive, non-recursive]' % (
+    return ('converted_call history: first request (function, options, status) = %s, then 5 bits per request '
+            '(f=b0+2b4 in [closure k=1, closure k=5, artifact], o=b1, status=b2+2b3 in [ENABLED, DISABLED, UNSPECIFIED]): %r; options=[recursive, non-recursive]' % (
                 func.split('_')[2:], args))
   return 'request history bits (5 per request: f=b0+2b1+4b2, o=b3+2b4) from harness %s: %r; pool=[shared(k=1,d=10), shared(k=5,d=20), v1.target, v2.target, shared(k=2,d=30) re-created]' % (func, args)
